@@ -204,7 +204,11 @@ func (c *Cluster) WaitServing(d time.Duration, ids []int) error {
 		ok := false
 		for time.Now().Before(deadline) {
 			if !c.Alive(id) {
-				return fmt.Errorf("node %d is not running: %.400s", id, c.CrashReport(id))
+				rep := c.CrashReport(id)
+				if rep == "" && c.Nodes[id-1].srv != nil {
+					rep = "last output: " + c.Nodes[id-1].srv.LogTail(500)
+				}
+				return fmt.Errorf("node %d is not running: %.500s", id, rep)
 			}
 			cn, err := c.Dial(id)
 			if err != nil {
